@@ -813,7 +813,17 @@ func (g *Gen) create(t *rapid.T, w *World, id uint64) Entry {
 		} else {
 			script = append(script, n, u)
 		}
-		switch pickW(t, "afterlogin", 1, 3, 1, 1, 6) {
+		switch pickW(t, "afterlogin", 1, 3, 1, 1, 6, 1) {
+		case 5:
+			// a client that joins channels and then authenticates as a services link: a link that is
+			// a channel member itself (seed C14k: its end must take it out of its channels as well)
+			pw := "mypass"
+			if len(g.Cfg.Services) > 0 {
+				pw = pick(t, "hybridpw", g.Cfg.Services)
+			}
+			script = append(script, Entry{Kind: "irc", Session: id, Data: "JOIN " + pick(t, "hybridjoin", []string{"#a", "#b", "#a,#b"})},
+				Entry{Kind: "irc", Session: id, Data: "PASS :services=" + pw},
+				Entry{Kind: "irc", Session: id, Data: "SERVER services.robustirc.net 1 :Services"})
 		case 4:
 			script = append(script, Entry{Kind: "irc", Session: id, Data: "JOIN " + pick(t, "popularjoin", []string{"#a", "#b", "#a,#b"})})
 		case 1:
